@@ -57,7 +57,7 @@ type Op struct {
 	Late  int  `json:"lateDeadline,omitempty"` // pick: 1 the context reports a deadline equal to now, 2 one in the past, and is not done (a context's timer may run late; custom contexts)
 	Exp   bool `json:"expired,omitempty"`      // pick: the context has already ended when the pick is issued (deadline in the past)
 
-	Out   int   `json:"out,omitempty"`           // done: 0 ok 1 Unavailable 2 client-side DEADLINE_EXCEEDED text 3 DEADLINE_EXCEEDED other text 4 raw context.DeadlineExceeded 5 Canceled 6..22 status code (n-6) 23 plain error 24 io.EOF
+	Out   int   `json:"out,omitempty"`           // done: 0 ok 1 Unavailable 2 client-side DEADLINE_EXCEEDED text 3 DEADLINE_EXCEEDED other text 4 raw context.DeadlineExceeded 5 Canceled 6..22 status code (n-6) 23 plain error 24 io.EOF 25 the pick is discarded by gRPC 26 an error whose GRPCStatus() reports OK
 	Rcv   bool  `json:"bytesReceived,omitempty"` // done with an error outcome: DoneInfo.BytesReceived is set all the same (something arrived before the call failed)
 	Rep   int   `json:"rep,omitempty"`           // done: 0 = the response of a BIND carries the request's key, 1 = it carries Reply (possibly empty)
 	Reply []int `json:"reply,omitempty"`         // done: keys carried by the response of a BIND when Rep=1
@@ -156,6 +156,7 @@ type Method struct {
 	List    bool   // locator names the repeated field
 	Bad     bool   // locator does not resolve to a string
 	AliasOf string // listed as a further name in the method entry of AliasOf
+	Num     int    // != 0: the entry's affinity command is written as this number (an enum value unknown to this version); Cmd is ""
 }
 
 // Methods is the method table of the standard configuration.
@@ -191,6 +192,8 @@ var Methods = []Method{
 	{Name: "noslash/Bind", Cmd: "BIND", Path: "key"},               // 26
 	{Name: "/noslash/Bind"},                                        // 27: not listed
 	{Name: "/bindsubs", Cmd: "BIND", Path: "subs.key", List: true}, // 28: the keys of the reply are spread over a repeated message field
+	{Name: "/cmd7", Num: 7, Path: "key"},                           // 29: the entry carries an affinity command number this version does not know: a plain method
+	{Name: "/cmdneg", Num: -1, Path: "key"},                        // 30
 }
 
 // Msg is the request/response message shape used by the pool histories.
@@ -240,6 +243,11 @@ func (c Config) JSON() string {
 				}
 			}
 			ms = append(ms, fmt.Sprintf(`{"name":[%s],"affinity":{"command":%q,"affinityKey":%q}}`, names, m.Cmd, m.Path))
+		}
+		for _, m := range Methods {
+			if m.Num != 0 {
+				ms = append(ms, fmt.Sprintf(`{"name":[%q],"affinity":{"command":%d,"affinityKey":%q}}`, m.Name, m.Num, m.Path))
+			}
 		}
 		ms = append(ms, `{"name":["/noaff"]}`)
 		parts = append(parts, `"method":[`+strings.Join(ms, ",")+`]`)
